@@ -1211,6 +1211,11 @@ def funds_matrix(rng, tier):
                     h.do(("swap", ntp, u, f, ("n", 0), decl, None, None, None))
                     h.do(("provide", ntp, u, f, ("n", 0), decl, ("t", 2), 4 * decl, None, None))
                     h.do(("pair_receive", ntp, u, f, u, decl, ("hswap", ("n", 0), decl, None, None, None)))
+                    if decl and (att is None or att != decl):
+                        # the same under-funded provisions on behalf of SOMEBODY ELSE (C09-agent19: the funds check waived when
+                        # a receiver is named and the coin is absent)
+                        h.do(("provide", ntp, u, f, ("n", 0), decl, ("t", 2), 4 * decl, None, USER0 + 2))
+                        h.do(("provide", nn, u, f, ("n", 0), decl, ("n", 1), decl, None, u))
                     if att is not None or not extra:
                         f1 = [(1, n_) if d_ == 0 else (d_, n_) for d_, n_ in f]          # the same shapes on denom 1
                         h.do(("provide", tnp, u, f1, ("t", 2), 4 * decl, ("n", 1), decl, None, None))
@@ -1614,6 +1619,29 @@ def lp_handover_histories(rng, tier):
     return cases
 
 
+def dust_withdrawal_histories(rng, tier):
+    """withdrawals so small that BOTH refunds floor to zero (1 LP unit right after an equal first provision whose size has a
+    prime factor other than 2 and 5; below supply/10^18 on a very deep pool): the unchanged pair cannot pay nothing and the
+    call fails leaving everything as it was; 2 units already pay (C07-agent19: such a withdrawal 'succeeded' and handed the
+    LP to the LP token contract's own account)"""
+    cases = []
+    h = Hist(3, 2, 2, 3, 10 ** 24, 1000, [6, 18], "directed-boundary", "withdrawals whose refunds both floor to zero")
+    created = setup_pairs(h, rng, [(("n", 0), ("n", 1)), (("n", 0), ("t", 2)), (("t", 2), ("t", 3))], comm=3 * 10 ** 15, provide=False, native_decs=[6, 6])
+    for p, n in zip(created, (3 * 10 ** 6, 7 * 10 ** 6 + 7, 3 * 10 ** 18)):
+        a0, a1 = h.pair_assets(p)
+        lp = h.pair_lp(p)
+        h.do(("provide", p, USER0, funds_for([(a0, n), (a1, n)]), a0, n, a1, n, None, None))
+        h.do(("transfer", lp, USER0, USER0 + 1, n // 3))
+        for u in (USER0, USER0 + 1):
+            for amt in (1, 2, 1, 3):
+                h.do(("send", lp, u, p, amt, ("hwithdraw",)))
+        h.do(gen_swap(h, rng, p, USER0 + 2, limits=False))
+        for u in (USER0 + 1, USER0):
+            h.do(("send", lp, u, p, 1, ("hwithdraw",)))
+    cases.append(h.finish())
+    return cases
+
+
 def counterfeit_lp_histories(rng, tier):
     """a cw20 that is NOT the pair's LP token but looks like a share token of it: its minter is the pair's address, outsiders
     hold all of its supply; it relays withdraw hooks (and swap hooks) for large parts of that supply.  Must be refused like
@@ -1697,8 +1725,11 @@ def registry_histories(rng, tier, big=False):
         sizes += [52] if tier == "quick" else [31, 52, 103]
     for n in sizes:
         if n <= 14:
-            h = Hist(2, 6, 3, 14, 10 ** 9, 1000, [6, 8, 18], "directed-grid", "registry with %d pairs" % n)
-            nd_, nt_ = 6, 3
+            # (the 12-pair registry has EIGHT cw20 tokens: contract addresses differ in how their canonical bytes sort against
+            # the denoms - most mock addresses canonicalise to bytes starting with NUL, contract6..9 do not - so that native/cw20
+            # pairs exist on both sides of that order; C19-agent19: stored key and cursor key sorted by different orders)
+            nd_, nt_ = (6, 3) if n != 12 else (6, 8)
+            h = Hist(2, nd_, nt_, 14, 10 ** 9, 1000, [6, 8, 18, 6, 6, 9, 12, 18][:nt_], "directed-grid", "registry with %d pairs" % n)
         else:
             # registries beyond every page size and batch size a walk might use: 11 / 15 assets give up to 55 / 105 pairs
             nd_, nt_ = (6, 5) if n <= 55 else (8, 7)
@@ -1857,6 +1888,19 @@ def router_histories(rng, tier):
                 kq = hd.query("rsim %d %s" % (kamt, ops_line(kops)))
                 hd.do(("router_ops", USER0 + 1, [(kops[0][0][1], kamt)], kops, None, USER0 + 2), kq)
             cases.append(hd.finish())
+            # two LONG identifiers that differ in the middle only (IBC vouchers sharing their first 16 and last 8 characters):
+            # a route with these two as dangling outputs, every branch funded, must be refused like any route with two outputs;
+            # one-hop routes to each of them deliver the quote (C13-agent19: identifiers abbreviated when printed, and the
+            # router's shape check keys on the printed form)
+            hl = Hist(3, 7, 1, 2, 10 ** 12, 1000, [6], "corpus", "routes over look-alike long identifiers")
+            cl = setup_pairs(hl, rng, [(("n", 0), ("n", 1)), (("n", 2), ("n", 6))], comm=3 * 10 ** 15, scale=10 ** 8, even=True,
+                             native_decs=[6, 6, 6, 6, 6, 6, 6])
+            for kops, kfunds in (([(("n", 0), ("n", 1)), (("n", 2), ("n", 6))], [(0, 100000), (2, 100000)]),
+                                 ([(("n", 2), ("n", 6)), (("n", 0), ("n", 1))], [(0, 70000), (2, 50000)]),
+                                 ([(("n", 0), ("n", 1))], [(0, 30000)]), ([(("n", 2), ("n", 6))], [(2, 30000)])):
+                kq = hl.query("rsim %d %s" % (kfunds[0][1], ops_line(kops))) if len(kops) == 1 else None
+                hl.do(("router_ops", USER0 + 1, kfunds, kops, None, USER0 + 2), kq)
+            cases.append(hl.finish())
         # directed: the recipient is itself a participant of the route whose balance of the final asset FALLS during it
         # (a pool that sells the final asset in the first hop of a route that comes back to it; the router itself)
         for ops, to_kind in (([(A, B), (B, C), (C, B)], "pool0"), ([(B, C), (C, E), (E, B)], "router"),
@@ -1885,6 +1929,16 @@ def router_histories(rng, tier):
                     h.do(("router_ops", u, [(T_[1], amount)], ops, m, None), quote)
                 else:
                     h.do(("send", T_[1], u, ROUTER, amount, ("hrouter", ops, m, None)), quote)
+        # directed: LONG routes (five and six hops, back and forth through one pair and around the triangle) with a minimum far
+        # above anything they can deliver, then with none: the minimum binds whatever the length (C11-agent19: the message list
+        # truncated to five entries, dropping the assertion behind a five-hop route)
+        for T_, X_, Y_ in ((("n", 0), ("t", 2), ("t", 3)),):
+            for ops in ([(T_, X_), (X_, T_)] * 2 + [(T_, X_)], [(T_, X_), (X_, Y_), (Y_, T_)] * 2, [(T_, X_), (X_, T_)] * 3):
+                u = USER0 + 2
+                amount = max(1000, min(h.abal(T_, u), 10 ** 6 + 3))
+                for m in (2 ** 100, None):
+                    quote = h.query("rsim %d %s" % (amount, ops_line(ops)))
+                    h.do(("router_ops", u, [(T_[1], amount)], ops, m, USER0 + 3), quote)
         # directed: the recipient is the LP token contract of the last hop's pair (and of the first hop's pair)
         for ops in ([(A, B), (B, C)], [(C, B)]):
             for which in (-1, 0):
